@@ -357,7 +357,7 @@ class Verifier(Engine):
     def construct_any(self, st, cs, args, kwargs):
         """Construction of an instance of one of several classes that share their __init__ (class-table check)."""
         inits = {classes.qualname(c.__name__, '__init__') for c in cs.classes}
-        if len(inits) != 1 or None in inits:
+        if (len(inits) != 1 and cs.conds is None) or None in inits:
             raise OutOfSubset('classes %r do not share one __init__' % sorted(c.__name__ for c in cs.classes))
         common = [k for k in cs.classes[0].__mro__ if all(issubclass(c, k) for c in cs.classes)][0]
         r = st.alloc(common.__name__.lower())
@@ -369,7 +369,17 @@ class Verifier(Engine):
                 # the class follows the lookup key: an instance of k exactly when the chosen class derives from k
                 st.pc.append(z3.Function('$isinst_' + k.__name__, I, B)(r) ==
                              z3.Or([c_ for c_, cl in zip(cs.conds, cs.classes) if issubclass(cl, k)] or [z3.BoolVal(False)]))
-        self.call_contract(st, inits.pop(), [ref] + args, kwargs)
+        if len(inits) == 1:
+            self.call_contract(st, inits.pop(), [ref] + args, kwargs)
+            return ref
+        # several constructors: each one's contract applies under "the chosen class uses this constructor"
+        for q in sorted(inits):
+            cond = z3.Or([c_ for c_, cl in zip(cs.conds, cs.classes) if classes.qualname(cl.__name__, '__init__') == q])
+            st.guards.append(cond)
+            try:
+                self.call_contract(st, q, [ref] + args, kwargs)
+            finally:
+                st.guards.pop()
         return ref
 
     # ---- contract call: assert pre, havoc, assume post
@@ -525,7 +535,8 @@ class Verifier(Engine):
                 if old is None:
                     continue
                 new = z3.Const(fresh_name('H_' + f), old.sort())
-                st.heap[f] = new
+                # (under a guard -- a constructor chosen by a table key -- the havoc only happens when the guard holds)
+                st.heap[f] = z3.If(z3.And(st.guards), new, old) if st.guards else new
                 keep = z3.And([l != r for r in refs]) if refs else z3.BoolVal(True)
                 if ctr.lists != '*':        # '*': any list may change, nothing is kept
                     st.pc.append(smt.forall([l], z3.Implies(keep, z3.Select(new, l) == z3.Select(old, l)), patterns=[z3.Select(new, l)]))
@@ -536,7 +547,7 @@ class Verifier(Engine):
             newa = z3.Const(fresh_name('H_alloc'), olda.sort())
             o_ = z3.Int(fresh_name('o'))
             st.pc.append(z3.ForAll([o_], z3.Implies(z3.Select(olda, o_), z3.Select(newa, o_))))
-            st.heap['$alloc'] = newa
+            st.heap['$alloc'] = z3.If(z3.And(st.guards), newa, olda) if st.guards else newa
         # havoc what the callee may modify
         for fld in [x for f_ in ctr.modifies for x in (('$mhasS', '$mvalS', '$mhasR', '$mvalR') if f_ == '$maps' else (f_,))]:
             if '.' in fld and not fld.startswith('$'):
@@ -616,10 +627,11 @@ class Verifier(Engine):
                 old = self.init_heap.get(n)
             if old is None:
                 continue
-            st.heap[n] = z3.Const(fresh_name('H_' + n), old.sort())
+            new_ = z3.Const(fresh_name('H_' + n), old.sort())
+            st.heap[n] = z3.If(z3.And(st.guards), new_, old) if st.guards else new_
             if n == '$len':
                 l = z3.Int(fresh_name('l'))
-                st.pc.append(smt.forall([l], z3.Select(st.heap[n], l) >= 0, patterns=[z3.Select(st.heap[n], l)]))
+                st.pc.append(smt.forall([l], z3.Select(new_, l) >= 0, patterns=[z3.Select(new_, l)]))
         self.havocked.append(fld)
 
     def call_inline(self, st, qual, ctr, args, kwargs, setter):
